@@ -104,4 +104,20 @@ theorem index_stable {s s' : PState} {e : Ev} (hi : Inv s) {t u : Tx} {st : TxSt
   | fin v => obtain ⟨_, _, _, _, rfl⟩ := step_fin.1 hs; exact hl
   | clear => cases he
 
+/-- `store.mu`, the converse direction: whoever owns the mutex is inside a section.  `hW` / `hR` say it of the
+    stepping thread before the step (it owns `store.mu` only inside a section), the conclusion says it after the
+    step; other threads keep exactly what they had -/
+theorem tstep_smu_conv {s s' : Shared} {t : Tid} {l l' : Loc} {ch : Choice} {e : Option Ev}
+    (h : tstep s t l ch = some (s', l', e)) (hnd : s.smu.readers.Nodup)
+    (hW : s.smu.writer = some t → inW l.pc = true) (hR : t ∈ s.smu.readers → inR l.pc = true) :
+    s'.smu.readers.Nodup ∧ (s'.smu.writer = some t → inW l'.pc = true) ∧ (t ∈ s'.smu.readers → inR l'.pc = true) ∧
+    (∀ u, u ≠ t → (s'.smu.writer = some u → s.smu.writer = some u) ∧ (u ∈ s'.smu.readers → u ∈ s.smu.readers)) := by
+  have herase : t ∉ s.smu.readers.erase t := fun hm => (List.Nodup.mem_erase_iff hnd).1 hm |>.1 rfl
+  cases hpc : l.pc <;> simp only [hpc, inW, inR] at hW hR <;> simp only [tstep, hpc] at h <;>
+    (repeat' split at h) <;> simp at h <;> (try (obtain ⟨rfl, rfl, _⟩ := h)) <;>
+    simp only [inW_retTo, inR_retTo, inW_nextPlan, inR_nextPlan, inW_commitNext, inR_commitNext] <;>
+    simp_all [inW, inR, Mu.lock, Mu.unlock, Mu.rlock, Mu.runlock, Mu.canLock, Mu.canRLock, List.Nodup.erase] <;>
+    (try (intro u hu hm; exact (List.mem_erase_of_ne hu).1 hm)) <;>
+    (try (intro u h1 h2; exact absurd h2.symm h1))
+
 end NodisVerif.Proofs.TxProg
